@@ -13,6 +13,10 @@ for d in sorted(glob.glob(f'/verif/seeded/{pid}*')):
         pass
 prev_txt = ('\nIdeas ALREADY USED by earlier changes for this property (do NOT repeat these or close variants; pick another mechanism / code site):\n'
             + '\n'.join('  - ' + x + ' ...' for x in prev) + '\n') if prev and variant != 'a' else ''
+FLAVOURS = {'e': '* For THIS change prefer one of: state carried from one API call to the next (an object used twice, a cache, a default argument), an interaction of '
+                 'two features / options that each work alone, two cooperating edits in different functions or files that each look fine alone, or an input at the edge of the '
+                 'documented domain (empty / single element / maximum arity / index 0 / repeated names).\n'}
+flavour = FLAVOURS.get(variant, '')
 print(f"""You are testing how good a (hidden) verification harness is. Your job: write ONE realistic, subtle change to the Python library
 s-holst/kyupy that BREAKS the semantic property below while the library still imports and its existing test suite still passes.
 You must NOT look at anything under /verif (it is off limits) — work only from the property text and the source code.
@@ -33,7 +37,7 @@ Requirements for the change:
 * It must need something SPECIFIC to manifest: a particular multi-step sequence, an unusual but legal input, a particular option
   combination, a particular size/arity/alignment — not something that any ordinary use exposes at once (the existing tests must keep passing).
 * It must genuinely violate the property as stated (not merely change an error message or performance).
-{prev_txt}{'* Prefer a DIFFERENT part of the anchored code than the most obvious one (e.g. not the first function you see); be creative.' if variant != 'a' else ''}
+{prev_txt}{flavour}{'* Prefer a DIFFERENT part of the anchored code than the most obvious one (e.g. not the first function you see); be creative.' if variant != 'a' else ''}
 
 Deliverables, all under {wt}/out/ (create the directory):
 1. `patch.diff` — output of `git -C {wt} diff` (only files under src/kyupy).
